@@ -165,7 +165,12 @@ def make_classes():
     class MonStack(classes.Stack):
         def __init__(self, max_items: int = 1024, max_item_size: int = 1024):
             super().__init__(max_items, max_item_size)
-            d = MonDeque(maxlen=self.max_items)
+            # the monitored deque keeps whatever bound the class itself gave
+            # its deque (setting our own would repair a wrong one unseen)
+            real = getattr(self, 'deque', None)
+            d = MonDeque(real if real is not None else (),
+                         maxlen=real.maxlen if real is not None
+                         else self.max_items)
             d.limits = (max_items, max_item_size)
             self.deque = d
 
